@@ -108,7 +108,7 @@ func init() {
 		func(p *Prog, r *Report) { ruleWalkArms(p, r, []string{"mxj.marshalMapToXmlIndent"}) })
 
 	register("C03",
-		"Structural clauses of 'encoding a JSON-shaped value as XML preserves all data': WALK.arms (every list member encoded in order under its key, every collected child encoded, AnyXml encodes every member of a list value), ROOT.explicit (AnyXml / AnyXmlIndent always name the root when they hand a map to Map.Xml / XmlIndent), TABLE.partition, ESC.flow, TABLE.escape (all five special characters are escaped, '&' first, no early return leaves one unescaped), ERR.path on the Map encoders and AnyXml/AnyXmlIndent (an element encoder error cannot be overwritten or dropped), TAGS.protocol (typestate of the element encoder: every path feasible for a JSON-shaped value writes a complete, properly nested element), TAGS.content (no scalar value or text entry is dropped: a write computed from it precedes the end of the element on every path), OWN.private (the document returned is not reachable from package state — a pooled or cached buffer — so no later call can rewrite it), RENDER.lossless (no value-changing numeric conversion between the encoded value and its text). Not decided: decode(encode(m)) ≅ m; well-formedness for arbitrary key strings. ROOT.ownkey (in the single-member case the whole Map is wrapped in the default root only for a list member). OPT.excl (the coupled escape setters). JSON.decoder for NewMapJson. ROOT.explicit (the first optional tag of AnyXml / AnyXmlIndent is read at a point not confined to the one-tag case: an explicit root is honoured with an element tag too)."+levelNote,
+		"Structural clauses of 'encoding a JSON-shaped value as XML preserves all data': WALK.arms (every list member encoded in order under its key, every collected child encoded, AnyXml encodes every member of a list value), ROOT.explicit (AnyXml / AnyXmlIndent always name the root when they hand a map to Map.Xml / XmlIndent), TABLE.partition, ESC.flow, TABLE.escape (all five special characters are escaped, '&' first, no early return leaves one unescaped), ERR.path on the Map encoders and AnyXml/AnyXmlIndent (an element encoder error cannot be overwritten or dropped), TAGS.protocol (typestate of the element encoder: every path feasible for a JSON-shaped value writes a complete, properly nested element), TAGS.content (no scalar value or text entry is dropped: a write computed from it precedes the end of the element on every path), OWN.private (the document returned is not reachable from package state — a pooled or cached buffer — so no later call can rewrite it), RENDER.lossless (no value-changing numeric conversion between the encoded value and its text). Not decided: decode(encode(m)) ≅ m; well-formedness for arbitrary key strings. ROOT.ownkey (in the single-member case the whole Map is wrapped in the default root only for a list member). OPT.excl (the coupled escape setters). JSON.decoder for NewMapJson. ROOT.explicit (the first optional tag of AnyXml / AnyXmlIndent is read at a point not confined to the one-tag case: an explicit root is honoured with an element tag too). ROOT.explicit wrap clause (under the explicit root tag Map.Xml / XmlIndent encode the receiver itself)."+levelNote,
 		nil,
 		ruleTagProtocol, func(p *Prog, r *Report) { ruleTagContent(p, r, "map") }, ruleRootSingle, ruleRootOwnKey,
 		func(p *Prog, r *Report) { ruleRenderLossless(p, r, []string{"mxj.marshalMapToXmlIndent"}) },
@@ -116,7 +116,7 @@ func init() {
 			ruleOwnPrivate(p, r, []string{"mxj.Map.Xml", "mxj.Map.XmlIndent", "mxj.AnyXml", "mxj.AnyXmlIndent"})
 		},
 		func(p *Prog, r *Report) { ruleWalkArms(p, r, []string{"mxj.marshalMapToXmlIndent"}) },
-		ruleAnyXmlList, ruleAnyXmlNilOnly, ruleAnyXmlTags, ruleTablePartition, ruleEsc, ruleTableEscape, ruleValidCoupling, ruleOptExcl,
+		ruleAnyXmlList, ruleAnyXmlNilOnly, ruleAnyXmlTags, ruleRootExplicitWrap, ruleTablePartition, ruleEsc, ruleTableEscape, ruleValidCoupling, ruleOptExcl,
 		ruleJsonDecoderFor([]string{"mxj.NewMapJson"}),
 		func(p *Prog, r *Report) { ruleErrContent(p, r, []string{"mxj.marshalMapToXmlIndent"}) },
 		func(p *Prog, r *Report) { ruleElemAlways(p, r, []string{"mxj.marshalMapToXmlIndent"}) },
@@ -175,7 +175,7 @@ func init() {
 		})
 
 	register("C07",
-		"Structural clauses of ValuesForPath exactness: PAIR.count (result is ret[:cnt] with cnt == len(ret)), WALK.progress (each recursion consumes exactly one segment; values are appended only when the path is exhausted), WALK.collect (collecting helpers are not recursive), ALIAS.reuse (no result buffer shares the array of a slice still being ranged over faster than it is consumed), WRAP.compose for ValueForPath / ValueForPathString / Exists (first value / non-empty of the plural form), PANIC.idx/assert on the indexed-path wrapper and the path parser, PRESENCE.commaok (whether a node has a key is decided by the comma-ok lookup, never by comparing the value with nil: null is a value), ITER.fresh (each parsed path segment is built from that segment only: no index or array flag left over from the previous one), WALK.lastindex (the indexed walker tests the type of a selected value only where segments remain: a final indexed step returns its member whatever its type). Not decided: that the returned multiset is the denoted one. WALK.literalkeys (no numeric conversion of a path segment in the legacy walker). WALK.progress clause: the exhausted-path test precedes every test of the node; OPT.scope (query group)."+levelNote,
+		"Structural clauses of ValuesForPath exactness: PAIR.count (result is ret[:cnt] with cnt == len(ret)), WALK.progress (each recursion consumes exactly one segment; values are appended only when the path is exhausted), WALK.collect (collecting helpers are not recursive), ALIAS.reuse (no result buffer shares the array of a slice still being ranged over faster than it is consumed), WRAP.compose for ValueForPath / ValueForPathString / Exists (first value / non-empty of the plural form), PANIC.idx/assert on the indexed-path wrapper and the path parser, PRESENCE.commaok (whether a node has a key is decided by the comma-ok lookup, never by comparing the value with nil: null is a value), ITER.fresh (each parsed path segment is built from that segment only: no index or array flag left over from the previous one), WALK.lastindex (the indexed walker tests the type of a selected value only where segments remain: a final indexed step returns its member whatever its type). Not decided: that the returned multiset is the denoted one. WALK.literalkeys (no numeric conversion of a path segment in the legacy walker). WALK.progress clause: the exhausted-path test precedes every test of the node; OPT.scope (query group). FWD.identity path clause (every module call of ValuesForPath that takes the path takes the parameter itself); ERR.path on ValuesForPath (no error of the indexed walker is dropped or translated). WALK.arms descent clause (the walker never calls itself where its node is known to be a scalar)."+levelNote,
 		nil,
 		func(p *Prog, r *Report) { rulePairCount(p, r, []string{"mxj.Map.oldValuesForPath"}) },
 		func(p *Prog, r *Report) { ruleIterFresh(p, r, []string{"mxj.parsePath"}) },
@@ -217,6 +217,9 @@ func init() {
 			ruleWrapCompose(p, r, []wrapSpec{{"mxj.Map.ValueForPath", []string{"mxj.Map.ValuesForPath"}, true},
 				{"mxj.Map.ValueForPathString", []string{"mxj.Map.ValuesForPath"}, true}, {"mxj.Map.Exists", []string{"mxj.Map.ValuesForPath"}, true}})
 		},
+		ruleFwdPathSelf,
+		func(p *Prog, r *Report) { ruleErr(p, r, []string{"mxj.Map.ValuesForPath"}, "ValuesForPath") },
+		func(p *Prog, r *Report) { ruleWalkDescend(p, r, []string{"mxj.valuesForKeyPath"}) },
 		panicRules([]string{"mxj.Map.ValuesForPath", "mxj.Map.ValueForPath", "mxj.Map.ValueForPathString", "mxj.Map.Exists"}))
 
 	register("C08",
@@ -262,7 +265,7 @@ func init() {
 		panicRules([]string{"mxj.Map.ValuesForKey", "mxj.Map.ValueForKey", "mxj.Map.PathsForKey", "mxj.Map.PathForKeyShortest"}))
 
 	register("C09",
-		"Structural clauses of LeafNodes: WALK.total (getLeafNodes visits every entry and member; skips depend only on the no-attribute option and the attribute prefix; the scalar arm appends exactly one LeafNode carrying the node), WRAP.compose + FWD (LeafPaths/LeafValues are projections of LeafNodes and forward their option), PANIC.idx/assert on the walker, ATTR.guard (a key is tested against the attribute prefix only where the prefix is known non-empty), PRESENCE.commaok on the walker and on the path resolution it must agree with (a null leaf is a value), WALK.lastindex (a path ending in an indexed step resolves to the member whatever its type). Not decided: that each path resolves to exactly its value. LEAF.attrfilter (every member loop below LeafNodes that hands the key on contains the attribute-prefix test); ITER.fresh for parsePath. PRED.local; WALK.total map arm always reaches a member loop."+levelNote,
+		"Structural clauses of LeafNodes: WALK.total (getLeafNodes visits every entry and member; skips depend only on the no-attribute option and the attribute prefix; the scalar arm appends exactly one LeafNode carrying the node), WRAP.compose + FWD (LeafPaths/LeafValues are projections of LeafNodes and forward their option), PANIC.idx/assert on the walker, ATTR.guard (a key is tested against the attribute prefix only where the prefix is known non-empty), PRESENCE.commaok on the walker and on the path resolution it must agree with (a null leaf is a value), WALK.lastindex (a path ending in an indexed step resolves to the member whatever its type). Not decided: that each path resolves to exactly its value. LEAF.attrfilter (every member loop below LeafNodes that hands the key on contains the attribute-prefix test); ITER.fresh for parsePath. PRED.local; WALK.total map arm always reaches a member loop. FWD.identity path clause of ValuesForPath. LEAF.attrfilter recursion clause (the leaf walker hands its option parameter on unchanged)."+levelNote,
 		nil,
 		func(p *Prog, r *Report) {
 			ruleWalkTotal(p, r, []walkerSpec{{"mxj.getLeafNodes", []string{"param:noattr", "load(mxj.attrPrefix)"}}})
@@ -299,6 +302,8 @@ func init() {
 			ruleFwdVariadic(p, r, func(n string) bool { return hasPrefixAny(n, "mxj.Map.Leaf") })
 		},
 		func(p *Prog, r *Report) { ruleFwdPure(p, r, "mxj.Map.LeafNodes", "mxj.getLeafNodes") },
+		ruleFwdPathSelf,
+		ruleLeafOptPass,
 		panicRules(grpLeaf))
 
 	register("C10",
@@ -332,7 +337,7 @@ func init() {
 		panicRules([]string{"mxj.Map.UpdateValuesForPath"}))
 
 	register("C11",
-		"Structural clauses of SetValueForPath / Remove / RenameKey: PAIR.atomic (exactly the documented writes, none in a loop, no error return reachable after a write, the renamed value moved unchanged then the old key deleted on the same parent, collision test is a presence test), WALK.progress for the parent walker (parent returned by position, recursion on the rest of the path; a value that is not a map ends the walk with an error), PATH.segments (the path is taken apart at its last separator: the deleted / moved key is the last segment, the sibling that forbids a rename is looked up under the path without its last segment), PANIC.assert/idx/nil, PRESENCE.commaok. Not decided: the frame condition as a whole; refusal to overwrite at top level (a string-value fact). PATH.segments value-independence clause for SetValueForPath. PATH.segments clause: SetValueForPath looks the parent up under the path without its last segment. PATH.segments empty-path clause (the segment list the lookup hands to its walker is not provably non-empty: the empty path selects the receiver itself)."+levelNote,
+		"Structural clauses of SetValueForPath / Remove / RenameKey: PAIR.atomic (exactly the documented writes, none in a loop, no error return reachable after a write, the renamed value moved unchanged then the old key deleted on the same parent, collision test is a presence test), WALK.progress for the parent walker (parent returned by position, recursion on the rest of the path; a value that is not a map ends the walk with an error), PATH.segments (the path is taken apart at its last separator: the deleted / moved key is the last segment, the sibling that forbids a rename is looked up under the path without its last segment), PANIC.assert/idx/nil, PRESENCE.commaok. Not decided: the frame condition as a whole; refusal to overwrite at top level (a string-value fact). PATH.segments value-independence clause for SetValueForPath. PATH.segments clause: SetValueForPath looks the parent up under the path without its last segment. PATH.segments empty-path clause (the segment list the lookup hands to its walker is not provably non-empty: the empty path selects the receiver itself). OPT.scope (no codec option is loaded below SetValueForPath / Remove / RenameKey)."+levelNote,
 		nil,
 		rulePairAtomic, ruleWalkParent, ruleSetValueIndependent, ruleSetParentPath, ruleEmptyPathSelf, rulePathSegments, ruleParentNotQueried,
 		func(p *Prog, r *Report) {
@@ -342,6 +347,7 @@ func init() {
 			}
 			rulePresence(p, r, func(n string) bool { return in[n] }, "SetValueForPath / Remove / RenameKey")
 		},
+		func(p *Prog, r *Report) { ruleOptScope(p, r, "Query") },
 		panicRules(grpMutators[:3]))
 
 	register("C12",
@@ -436,9 +442,11 @@ func init() {
 		func(p *Prog, r *Report) { ruleOptScope(p, r) }, ruleInflCastFlag)
 
 	register("C19",
-		"Structural clauses of 'files, gob and Copy read back equal': WRAP.concat (file writers write exactly the string form, which is the concatenation of per-Map encodings), WRAP.fileloop (readers loop on the raw reader over the opened file; exits only by io.EOF or an error return carrying the Maps read so far; every decoded Map is appended), TABLE.gob (Encode/Decode type agreement; container types registered), WRAP.compose + OWN.fresh (Copy), JSON.decoder (every JSON decode the reader and file functions reach is the one Decoder of NewMapJson on which UseNumber is set under JsonUseNumber: numbers written from json.Number values are read back as such), ERR.path on the file and gob functions. Not decided: equality of what is read back; behaviour on truncated files. WRAP.fileloop append-after-error-test clause. WRAP.fileloop clause: no os.Lstat below the readers. TABLE.norewrite (the JSON written to a file comes from the one encoder without textual substitution or json.Marshal). ERR.eoftest (the end of the input is recognised by identity with io.EOF; an errors.Is test only where nothing reachable wraps errors)."+levelNote,
+		"Structural clauses of 'files, gob and Copy read back equal': WRAP.concat (file writers write exactly the string form, which is the concatenation of per-Map encodings), WRAP.fileloop (readers loop on the raw reader over the opened file; exits only by io.EOF or an error return carrying the Maps read so far; every decoded Map is appended), TABLE.gob (Encode/Decode type agreement; container types registered), WRAP.compose + OWN.fresh (Copy), JSON.decoder (every JSON decode the reader and file functions reach is the one Decoder of NewMapJson on which UseNumber is set under JsonUseNumber: numbers written from json.Number values are read back as such), ERR.path on the file and gob functions. Not decided: equality of what is read back; behaviour on truncated files. WRAP.fileloop append-after-error-test clause. WRAP.fileloop clause: no os.Lstat below the readers. TABLE.norewrite (the JSON written to a file comes from the one encoder without textual substitution or json.Marshal). ERR.eoftest (the end of the input is recognised by identity with io.EOF; an errors.Is test only where nothing reachable wraps errors). OWN.private for Gob (the bytes returned are not reachable from package state); OPT.scope (no option is loaded below Gob / NewMapGob)."+levelNote,
 		nil,
 		ruleWrapConcat, ruleWrapFileLoop, ruleTableGob, ruleJsonEscape, ruleFileNoLstat, ruleTableNoRewrite, ruleJsonNoMarshal, ruleEOFTest,
+		func(p *Prog, r *Report) { ruleOwnPrivate(p, r, []string{"mxj.Map.Gob"}) },
+		func(p *Prog, r *Report) { ruleOptScope(p, r, "Gob") },
 		func(p *Prog, r *Report) { ruleJsonScanClosing(p, r, "mxj.getJson") },
 		func(p *Prog, r *Report) { ruleJsonScanEscape(p, r, "mxj.getJson") },
 		func(p *Prog, r *Report) {
@@ -455,7 +463,7 @@ func init() {
 		})
 
 	register("C20",
-		"Wrapper conformance in the resolved program: WRAP.compose over every exported function of j2x (16), x2j (16) and the thin x2j-wrapper forms (19): the module calls are exactly the documented composition, each step is applied to the result of the previous one under its err==nil edge, returned values are results of the composition; FWD.param/FWD.variadic (every parameter reaches the wrapped call); FWD.identity (string / list / byte arguments reach the core call as the parameter itself); SCAN.complete (a member of another type never ends a scan over list members); for x2j-wrapper's re-implemented walkers INFL.crumb, WALK.total, WALK.progress, WALK.collect, INFL.metric; LOOP.handler and IO.read on its bulk forms; ERR.path; OPT.dead for the wrapper's own option. Not decided: value equality of results. FWD.pure (the getAttrs flag handed to the walker by ValuesFromKeyPath / ValuesAtKeyPath depends on the optional argument only). FWD.names cast-flag clause (an option of another meaning never reaches the decoder's cast argument)."+levelNote,
+		"Wrapper conformance in the resolved program: WRAP.compose over every exported function of j2x (16), x2j (16) and the thin x2j-wrapper forms (19): the module calls are exactly the documented composition, each step is applied to the result of the previous one under its err==nil edge, returned values are results of the composition; FWD.param/FWD.variadic (every parameter reaches the wrapped call); FWD.identity (string / list / byte arguments reach the core call as the parameter itself); SCAN.complete (a member of another type never ends a scan over list members); for x2j-wrapper's re-implemented walkers INFL.crumb, WALK.total, WALK.progress, WALK.collect, INFL.metric; LOOP.handler and IO.read on its bulk forms; ERR.path; OPT.dead for the wrapper's own option. Not decided: value equality of results. FWD.pure (the getAttrs flag handed to the walker by ValuesFromKeyPath / ValuesAtKeyPath depends on the optional argument only). FWD.names cast-flag clause (an option of another meaning never reaches the decoder's cast argument). WALK.arms descent clause (the re-implemented path walker never calls itself where its node is known to be a scalar)."+levelNote,
 		[]string{"wrapper documentation transcribed in rules_wrap.go"},
 		func(p *Prog, r *Report) { ruleWrapCompose(p, r, j2xSpecs()) },
 		func(p *Prog, r *Report) { ruleWrapCompose(p, r, x2jSpecs()) },
@@ -472,6 +480,7 @@ func init() {
 		ruleOptWriters,
 		func(p *Prog, r *Report) { ruleScanComplete(p, r, p.PkgFuncs("x2jw")) },
 		func(p *Prog, r *Report) { ruleResultOwnArray(p, r, []string{"x2jw.valuesFromKeyPath"}) },
+		func(p *Prog, r *Report) { ruleWalkDescend(p, r, []string{"x2jw.valuesFromKeyPath"}) },
 		func(p *Prog, r *Report) { ruleInflCrumb(p, r, []string{"x2jw.hasKeyPath"}) },
 		func(p *Prog, r *Report) {
 			ruleWalkTotal(p, r, []walkerSpec{{"x2jw.hasKey", nil}, {"x2jw.hasKeyPath", nil}})
